@@ -151,6 +151,7 @@ func init() {
 			"at least 3 members were in one session, accepted changes of at least 3 state classes occurred and at least one view comparison ran",
 			func(s *e1.Stats) bool { return s.MaxMembers >= 3 && len(s.ClassesChanged) >= 3 && s.ViewCompares > 0 })
 		partConcurrent(c, a, "C01")
+		partStepThrough(c, a, []string{"join", "switch", "leave", "delete"})
 		partGated(c, a, []func(*sut.Proc) *e2.Result{e2.G6SameKeyActionWriters, e2.G4ModuleStateRace}, 1)
 		return a.finish(c)
 	}
@@ -166,6 +167,7 @@ func init() {
 				return marks(s, "relay:multi-recipient") && refused > 0
 			})
 		partConcurrent(c, a, "C02")
+		partStepThrough(c, a, []string{"join", "leave", "delete"})
 		partLagging(c, a)
 		return a.finish(c)
 	}
